@@ -37,35 +37,50 @@ RULE = ("(template, substrate, direction, hydrogen mode) as in C03 (centre / ful
         "at least one rewriting; distinct = distinct (pair, variant list)")
 EXHAUSTIVE = {"quick": False, "thorough": False}
 EXPLANATION = ("Theorems about the composed pipeline model (rule preparation -> matches by strategy -> pruning by rule automorphisms -> "
-               "glue -> hydrogen stage). Correspondence: per writing and strategy, match counts and the multiset of glued ITS graphs "
-               "are compared with the implementation before RDKit serialisation; the metamorphic oracle compares the sets of "
-               "standardised reactions across writings, strategies and repeated calls.")
+               "glue -> hydrogen stage): every stage commutes literally with renumbering of substrate and template (no tie-break looks at a "
+               "node id), BACKTRACK = COMPONENT when non-empty, pruning loses no class of matches. Correspondence: per writing and strategy, "
+               "match counts and the multiset of glued ITS graphs are compared with the implementation before RDKit serialisation; the "
+               "metamorphic oracle compares the sets of standardised reactions across writings, strategies and repeated calls.")
 TRUSTED_BASE = [
     "Coq 8.16.1 kernel + vm_compute (no native_compute)",
-    "hand-written models coq/model/C05_Model.v (composition) over C03_Model.v (rule preparation, glue, hydrogen stages), "
-    "C06_Model.v (strategies) and C11_Model.v (dedup by automorphisms), tied to synkit/Synthesis/Reactor/syn_reactor.py, "
+    "hand-written models coq/model/C05_Model.v (composition, lazy enumerator proved equal to lib/Mono.v) over C03_Model.v (rule preparation, "
+    "glue, hydrogen stages), C06_Model.v (strategies) and C11_Model.v (dedup by automorphisms), tied to synkit/Synthesis/Reactor/syn_reactor.py, "
     "synkit/Graph/Matcher/{subgraph_matcher,dedup_matches}.py by the per-run correspondence",
     "harness encoders harness/gen/c03_common.py and harness/props/C05.py (nx graphs -> Gallina literals; attributes -> tok; block-wise "
     "renaming of hydrogen ids on the explicit path)",
     "networkx VF2 enumerates exactly the label-preserving monomorphisms / automorphisms, in some order (oracle contract; the model "
     "uses the verified enumerator lib/Mono.v; every count and glued multiset is compared on every case)",
-    "RDKit: SMILES parsing yields isomorphic graphs for rewritings of one molecule; MolToSmiles / Standardize give equal strings for "
-    "isomorphic results (oracle contract, named premise of C05_result_set_invariant; monitored by the metamorphic oracle)",
+    "RDKit: SMILES parsing yields isomorphic graphs for rewritings of one molecule; graph_to_smi / Standardize give equal strings for "
+    "isomorphic results (oracle contract; monitored by the metamorphic oracle, which checks the parsed hosts for isomorphism and compares "
+    "the glued ITS graphs up to isomorphism next to the strings)",
 ]
 ASSUMPTIONS = ["templates have typesGH 5-tuples on every node, no wildcard atoms", "hydrogen counts are non-negative",
                "hydrogen mode matches how the template is written (as in C03)",
-               "search threshold = the engine default 5000, no max_results, pre_filter off (SynReactor defaults)"]
+               "search threshold = the engine default 5000, no max_results, pre_filter off, strict_cc_count on (SynReactor defaults)"]
 TESTED_NOT_PROVED = [
     "RDKit half: substrate parsing and result serialisation/standardisation are invariant under rewriting (metamorphic oracle on the "
     "implementation: equal sets of Standardize.fit strings across writings, strategies, repeated calls)",
+    "component-aware results are a subset of the exhaustive ones in general (proved only: BACKTRACK = COMPONENT when non-empty, COMPONENT = ALL "
+    "when the substrate has fewer components; the general inclusion is compared per run at match-count, glued-graph and string level)",
+    "invariance under changes of the INSERTION ORDER of nodes/edges (the proof covers renumbering with the order kept; every rewriting the "
+    "generators produce also permutes the order and is compared with the implementation)",
+    "explicit-hydrogen path (pattern keeps X-H bonds: re-matching on the hydrogen-expanded substrate) and the _explicit_h stage: modelled and "
+    "compared on every run, not covered by the invariance theorem (new hydrogen ids are allocated in numeric order)",
     "repeated calls on the same reactor object / same template object return the same list (oracle; the model is a pure function)",
-    "hosts of two writings are isomorphic graphs (monitor in the oracle: networkx isomorphism of the parsed graphs)",
 ]
-LEVEL_TEXT = ("Machine-checked proof (Coq) over an executable model of the whole graph-level rule-application pipeline "
-              "(SynRule preparation, search strategies ALL/COMPONENT/BACKTRACK over a verified monomorphism enumerator, pruning by rule "
-              "automorphisms, gluing, hydrogen stage), tied to the Python code on every run by comparing match counts and the multiset of "
-              "glued ITS graphs per writing and strategy; the RDKit half (parsing, canonical output) is covered by a metamorphic oracle.")
-LEVEL_NOTE = ("Trusted: Coq kernel + vm_compute; the models and encoders; VF2 and RDKit contracts (monitored, not proved).")
+LEVEL_TEXT = ("Machine-checked proof (Coq) over an executable model of the whole graph-level rule-application pipeline (SynRule preparation, "
+              "search strategies ALL/COMPONENT/BACKTRACK over a verified monomorphism enumerator, pruning by rule automorphisms, gluing): "
+              "for every substrate, rule, strategy and every injective renumbering of substrate and template that keeps the insertion order, "
+              "raw matches, kept matches, glued ITS graphs and the result list of the renumbered inputs are exactly the renumbered ones "
+              "(patterns without explicit X-H bonds, no _explicit_h stage; end to end from the template in implicit-hydrogen mode); "
+              "BACKTRACK returns the COMPONENT result whenever that is non-empty; pruning returns a sub-list and loses no class of matches. "
+              "The model is tied to the Python code on every run by comparing, per writing and strategy, match counts and the multiset of "
+              "glued ITS graphs; the RDKit half (parsing, canonical output), insertion-order changes, the explicit-hydrogen path and "
+              "comp <= all are covered by the correspondence and a metamorphic oracle, not by proof.")
+LEVEL_NOTE = ("Trusted: Coq kernel + vm_compute; the models and encoders; VF2 and RDKit contracts (monitored, not proved). The full clause "
+              "(set of distinct reactions invariant under arbitrary rewriting) is stated in coq/props/C05.v as a comment next to the partial theorems.")
+TECHNIQUE = "Coq proof about an executable Gallina model + per-run correspondence (vm_compute vs implementation) + metamorphic property oracle"
+DESIGN_REF = "DESIGN.md section 5 C05, section 7 row 17; notes/C05.md"
 
 
 def worker_init():
@@ -309,6 +324,17 @@ def _same_iso_sets(A, B):
     return True
 
 
+def _sub_iso_sets(A, B):
+    """every class of A has an isomorphic class in B"""
+    from networkx.algorithms.isomorphism import GraphMatcher
+    for k, reps in A.items():
+        for G in reps:
+            if not any(GraphMatcher(G, r, node_match=lambda a, b: a["lab"] == b["lab"], edge_match=lambda a, b: a["lab"] == b["lab"]).is_isomorphic()
+                       for r in B.get(k, [])):
+                return False
+    return True
+
+
 def _observe(case, v, st):
     """one reactor run -> dict(set of standardised reactions, iso classes of the glued graphs that serialise, raw, kept)"""
     rec = _run(case, v, st, want_smarts=True)
@@ -385,6 +411,8 @@ def oracle(case):
             continue
         if not C["std"] <= A["std"]:
             fail("comp-subset", "writing %s (%s ; %s): component-aware results not among the exhaustive ones: %r" % (v["v"], v["sub"], v["rsmi"], sorted(C["std"] - A["std"])[:2]))
+        elif not _sub_iso_sets(C["iso"], A["iso"]):
+            fail("comp-subset-its", "writing %s (%s ; %s): a glued ITS graph of the component-aware strategy is not isomorphic to any of the exhaustive strategy" % (v["v"], v["sub"], v["rsmi"]))
         if C["std"] and B["std"] != C["std"]:
             fail("bt-equals-comp", "writing %s (%s ; %s): fallback strategy gives %d reactions, component-aware %d (non-empty)" % (v["v"], v["sub"], v["rsmi"], len(B["std"]), len(C["std"])))
     # repetition: same reactor object asked again; a second reactor on the same template OBJECT and substrate
@@ -510,8 +538,8 @@ def gen_cases(tier, rng):
         pick = {"usp": rng.sample(idx["usp"], 8), "eco": rng.sample(idx["eco"], 10)}
         nfor, k_sub, k_tpl, cap = 2, 2, 2, 14.0
     else:
-        pick = {"usp": list(idx["usp"]), "eco": list(idx["eco"])}
-        nfor, k_sub, k_tpl, cap = 6, 3, 3, 60.0
+        pick = {"usp": rng.sample(idx["usp"], 60), "eco": rng.sample(idx["eco"], 100)}
+        nfor, k_sub, k_tpl, cap = 4, 2, 2, 30.0
     for name in ("usp", "eco"):
         for n_, (i, mode) in enumerate(pick[name]):
             inv = rng.random() < 0.5
@@ -520,9 +548,9 @@ def gen_cases(tier, rng):
                 if mode == "E":
                     combos.append((True, inv, "I"))      # explicit centre hydrogens kept in the pattern: the re-matching path
             else:
-                combos = [(True, False, mode), (True, True, mode), (False, False, mode), (False, True, mode)]
+                combos = [(True, False, mode), (True, True, mode), (False, inv, mode)]
                 if mode == "E":
-                    combos += [(True, False, "I"), (True, True, "I")]
+                    combos += [(True, inv, "I")]
             for core, iv, md in combos:
                 p = Gn.own_pair(name, i, core, iv, md)
                 if p:
